@@ -57,3 +57,134 @@ pub fn varint_decode(b: &[u8], len: usize) -> Option<(u64, usize)> {
     }
     Some((v, n))
 }
+
+// ------------------------------------------------------------------------------------------------
+// RFC 7541 §5.1 / RFC 9204 §4.1.1 prefixed integers
+
+/// Reference encoder: N-bit prefix integer; returns (bytes, len). `flags` are the bits above the prefix.
+pub fn prefix_int_encode(size: u8, flags: u8, value: u64) -> ([u8; 11], usize) {
+    let mut out = [0u8; 11];
+    let maxp: u64 = if size >= 8 { 255 } else { (1u64 << size) - 1 };
+    let fl: u8 = if size >= 8 { 0 } else { flags << size };
+    if value < maxp {
+        out[0] = fl | value as u8;
+        return (out, 1);
+    }
+    out[0] = fl | maxp as u8;
+    let mut rest = value - maxp;
+    let mut n = 1;
+    while rest >= 128 {
+        out[n] = (rest % 128) as u8 | 0x80;
+        rest /= 128;
+        n += 1;
+    }
+    out[n] = rest as u8;
+    (out, n + 1)
+}
+
+/// Result of the reference prefixed-integer decoder.
+#[derive(Copy, Clone, PartialEq, Eq)]
+pub enum PInt {
+    /// exact mathematical value (128-bit), flags, bytes consumed, number of continuation bytes
+    Value(u128, u8, usize, usize),
+    /// input ended inside the integer
+    Truncated,
+    /// more than 10 continuation bytes with the continuation bit set (beyond any 64-bit value)
+    TooLong,
+}
+
+/// Reference decoder over `b[..len]`, exact arithmetic in u128, at most 10 continuation bytes followed.
+pub fn prefix_int_decode(size: u8, b: &[u8], len: usize) -> PInt {
+    if len == 0 {
+        return PInt::Truncated;
+    }
+    let maxp: u128 = if size >= 8 { 255 } else { (1u128 << size) - 1 };
+    let flags: u8 = if size >= 8 { 0 } else { b[0] >> size };
+    let p = (b[0] as u128) & maxp;
+    if p < maxp {
+        return PInt::Value(p, flags, 1, 0);
+    }
+    let mut v = maxp;
+    let mut i = 1;
+    while i <= 10 {
+        if i >= len {
+            return PInt::Truncated;
+        }
+        v += ((b[i] & 127) as u128) << (7 * (i - 1));
+        if b[i] & 128 == 0 {
+            return PInt::Value(v, flags, i + 1, i);
+        }
+        i += 1;
+    }
+    PInt::TooLong
+}
+
+// ------------------------------------------------------------------------------------------------
+// RFC 7541 §5.2 Huffman decoding (independent bit-serial decoder over Appendix B)
+
+pub use crate::huffman_table::HUFFMAN_CODES;
+
+fn bit_at(b: &[u8], i: usize) -> u32 {
+    ((b[i / 8] >> (7 - (i % 8))) & 1) as u32
+}
+
+use crate::huffman_table::huffman_lookup;
+
+/// Verdict of the reference Huffman decoder.
+#[derive(Copy, Clone, PartialEq, Eq)]
+pub enum Huff {
+    /// RFC 7541 §5.2 accepts: the decoded symbols and their count
+    Accept([u8; 6], usize),
+    /// the EOS symbol occurs inside the string
+    RejectEos,
+    /// the bits after the last complete code are all ones but there are more than 7 of them
+    RejectPaddingTooLong,
+    /// the bits after the last complete code are not all ones (incomplete code / wrong padding)
+    RejectPaddingNotOnes,
+}
+
+/// Reference decode of `b[..len]` (len <= 4): complete codes, no EOS, then < 8 bits of all-ones padding.
+pub fn huffman_decode(b: &[u8], len: usize) -> Huff {
+    let nbits = len * 8;
+    let mut out = [0u8; 6];
+    let mut n = 0usize;
+    let mut pos = 0usize;
+    // at most 6 symbols fit in 32 bits (shortest code is 5 bits)
+    let mut guard = 0;
+    while guard < 7 {
+        // try to complete one code starting at `pos`
+        let mut acc: u32 = 0;
+        let mut l: u8 = 0;
+        let mut sym: Option<u16> = None;
+        while (l as usize) < 30 && pos + (l as usize) < nbits && sym.is_none() {
+            acc = (acc << 1) | bit_at(b, pos + l as usize);
+            l += 1;
+            sym = huffman_lookup(acc, l);
+        }
+        match sym {
+            Some(256) => return Huff::RejectEos,
+            Some(s) => {
+                out[n] = s as u8;
+                n += 1;
+                pos += l as usize;
+            }
+            None => {
+                // leftover bits are padding: fewer than 8, all ones
+                let pad = nbits - pos;
+                let mut i = pos;
+                while i < nbits {
+                    if bit_at(b, i) == 0 {
+                        return Huff::RejectPaddingNotOnes;
+                    }
+                    i += 1;
+                }
+                if pad > 7 {
+                    return Huff::RejectPaddingTooLong;
+                }
+                return Huff::Accept(out, n);
+            }
+        }
+        guard += 1;
+    }
+    Huff::RejectPaddingNotOnes
+}
